@@ -9,7 +9,11 @@ Micro-step model of the callback adapters of cocls (C18):
 * `discard` (future.h): heap awaiter owning the future; subscribes in its constructor or runs its finaliser itself;
 * `future_conv` (future_conv.h): member future + parked outer promise; the resume function reads the source (`*_fut`),
   runs the converter and resolves the outer promise (value, source exception, converter exception, dropped);
-* `call_fn_future_awaiter` (future.h): member future, resume function calls a member function with the future.
+* `call_fn_future_awaiter` (future.h): member future, resume function calls a member function with the future;
+* `call_fn_awaiter` (awaiter.h): a bare awaiter whose resume function calls a member function with the awaiter; it owns no
+  future and has no registration function of its own — the user drives the subscription protocol of
+  `co_awaiter::subscribe` by hand: `await_ready()` (load), `subscribe(&awt)` (CAS), and on "already resolved" completes
+  it himself (`awt.resume()`); the node is a member object re-used for one operation after the other.
 
 One awaited operation = one source future (slot + payload) + one shared promise (`owner`) + exactly one adapter.
 Agents: agent 0 is the *registrar* (runs the registration, optionally invokes the promise itself afterwards:
@@ -62,7 +66,7 @@ def Outcome.obs : Outcome → Obs
   | Outcome.none => Obs.canceled
 
 inductive Adapter where
-  | cbAwait | mkProm | discard | conv | callFn
+  | cbAwait | mkProm | discard | conv | callFn | callAwt
   deriving DecidableEq, Repr, Inhabited
 
 /-- behaviour of the user's converter (`future_conv`): returns the converted value, throws, or (promise-taking shapes
@@ -287,6 +291,7 @@ def sawOf (c : Cfg) (p : Outcome) : List Obs :=
   | Adapter.cbAwait => cbAwaitSees c p
   | Adapter.mkProm => [p.obs]
   | Adapter.callFn => [p.obs]
+  | Adapter.callAwt => [p.obs]
   | _ => []
 
 /-- the converter invocations of a completion (at most one) with their argument -/
@@ -345,11 +350,16 @@ def prep (c : Cfg) (s : State) : State :=
            nxt := if c.adapter.allocates then Slot.null else s.nxt }
 
 /-- first step of the registrar: `prep`, then the first operation on a shared atomic.  `callback_await` asks `ready()`
-first; `make_promise` pre-loads the slot with its own node and touches nothing shared; the others subscribe at once -/
+first, and so does the hand-driven `call_fn_awaiter`; `make_promise` pre-loads the slot with its own node and touches
+nothing shared; the others subscribe at once -/
 def startStep (c : Cfg) (s : State) : State × List Ev :=
   let evs := if c.adapter.allocates then [Ev.alloc] else []
   match c.adapter with
   | Adapter.cbAwait =>
+      (match s.slot with
+       | Slot.ready => (setPc (prep c s) 0 (Pc.comp (nloads c s.payload) Who.reg), evs ++ [Ev.opLoadSlot 0 Slot.ready])
+       | sl => (setPc (prep c s) 0 Pc.gCas, evs ++ [Ev.opLoadSlot 0 sl]))
+  | Adapter.callAwt =>
       (match s.slot with
        | Slot.ready => (setPc (prep c s) 0 (Pc.comp (nloads c s.payload) Who.reg), evs ++ [Ev.opLoadSlot 0 Slot.ready])
        | sl => (setPc (prep c s) 0 Pc.gCas, evs ++ [Ev.opLoadSlot 0 sl]))
